@@ -26,12 +26,23 @@ type solverSpec struct {
 	args func(timeout int, file string) []string
 }
 
+// The portfolio.  Pure E-matching configurations come first: with model-based quantifier
+// instantiation switched off the solvers either refute an obligation in well under a second
+// or give up at once, which is what a verification-condition workload wants.
 var solvers = []solverSpec{
+	{"z3-new/ematching", func(t int, f string) []string {
+		return []string{"z3-new", "-smt2", fmt.Sprintf("-T:%d", t), "smt.mbqi=false", f}
+	}},
+	{"cvc5/enum-inst", func(t int, f string) []string {
+		return []string{"cvc5", "--lang=smt2", fmt.Sprintf("--tlimit=%d", t*1000), "--strings-exp", "--enum-inst", f}
+	}},
+	{"z3/ematching", func(t int, f string) []string {
+		return []string{"z3", "-smt2", fmt.Sprintf("-T:%d", t), "smt.mbqi=false", f}
+	}},
 	{"z3-new", func(t int, f string) []string { return []string{"z3-new", "-smt2", fmt.Sprintf("-T:%d", t), f} }},
 	{"cvc5", func(t int, f string) []string {
 		return []string{"cvc5", "--lang=smt2", fmt.Sprintf("--tlimit=%d", t*1000), "--strings-exp", f}
 	}},
-	{"z3", func(t int, f string) []string { return []string{"z3", "-smt2", fmt.Sprintf("-T:%d", t), f} }},
 }
 
 // Script renders the standalone query of an obligation.
